@@ -71,11 +71,10 @@ CHECKS['C19'] = {
     'level_text': 'Unbounded deductive proof (Verus) on the verbatim text of check_layout, get_type_layout and has_same_offsets: for every module with acyclic by-value containment '
                   'the computed (size, alignment) equals the HLSL structured-buffer resp. Metal ABI spec function (struct tail padding, vec3 = 4 scalars on Metal), has_same_offsets answers true only if every '
                   'struct member offset and array stride agrees recursively, and check_layout returning Ok implies that every structured-buffer element type and every typed load/store element type has '
-                  'equal padded size and agreeing field offsets under both ABIs; a size-mismatch rejection reports the true padded sizes.',
+                  'equal padded size and agreeing field offsets under both ABIs; a size-mismatch rejection reports the true padded sizes. The recursion of get_type_layout and has_same_offsets terminates (decreases on the containment rank). The guard the type checker uses to keep containment acyclic, contains_struct_by_value (typer/src/typer/structs.rs), answers true exactly if a value of the member type contains a value of the struct being defined - directly, as an array element or inside a member struct - and terminates.',
     'level_note': 'Assumed: registry getters (get_type_layer, get_underlying_type_id, function registry getters), u32::next_multiple_of contract (checked by a bounded Kani harness for the alignments 1..64 only; the full-domain check is a divider equivalence that does not finish), HashSet key model for TypeId (u32::next_power_of_two is no longer assumed: discharged by a complete Kani harness), '
                   'the ABI rules as written in the spec functions (DXC C-like scalar alignment; MSL spec 2.2/2.3). Preconditions not proved of the typer: acyclic containment, vector lengths 1..4, sizes < 2^24, '
-                  'no literal/template types inside buffer elements, typed load/store intrinsics carry exactly one type argument. Termination of the two recursive functions is not verified '
-                  '(exec_allows_no_decreases_clause). Rewrite N4 (for-loop desugaring, because Verus for-loops do not support `continue`) is applied to two loops of check_layout.',
+                  'no literal/template types inside buffer elements, typed load/store intrinsics carry exactly one type argument. That parse_struct_internal applies the guard to every member, and that guarded members keep containment acyclic (the rank extension), are not verified. Rewrite N4 (for-loop desugaring, because Verus for-loops do not support `continue`) is applied to two loops of check_layout.',
 }
 
 CHECKS['C14'] = {
@@ -96,7 +95,7 @@ CHECKS['C08'] = {
     'level_text': 'Unbounded deductive proof (Verus) that no panic!, failed assert!/assert_eq!, index out of bounds, arithmetic overflow or division by zero is reachable in any of the '
                   'functions under contract (listed in the evidence file) for inputs satisfying the stated preconditions, and that their loops terminate where a decreases clause is given.',
     'level_note': 'Partial by construction: covers only the functions under contract (about 120, listed in the evidence file), under their preconditions; the other panic sites, stack depth and the time bound of compile() are not decided. '
-                  'Two pointer-range debug_asserts in TokenStream::next are outside the verifier memory model (assumed). Termination of get_type_layout/has_same_offsets recursion is not verified. #include recursion: the depth bound is decided by a bounded Kani harness (one token shape) with loader and nested call replaced by recorders; the stack needed per level (about 4 KB in debug builds) against the available stack is not decided. Pipeline names: the guard find_pipeline_location is verified, that parse_pipeline calls it before appending is not; select_pipeline and compile() abort on duplicate names and are outside both engines.',
+                  'Two pointer-range debug_asserts in TokenStream::next are outside the verifier memory model (assumed). Struct template instantiation depth (MAX_STRUCT_TEMPLATE_DEPTH in ensure_struct_template) is outside both engines. #include recursion: the depth bound is decided by a bounded Kani harness (one token shape) with loader and nested call replaced by recorders; the stack needed per level (about 4 KB in debug builds) against the available stack is not decided. Pipeline names: the guard find_pipeline_location is verified, that parse_pipeline calls it before appending is not; select_pipeline and compile() abort on duplicate names and are outside both engines.',
 }
 
 CHECKS['C07'] = {
